@@ -50,7 +50,11 @@ class Checker:
     def cv(self, kind):
         self.csum_verified[kind] = self.csum_verified.get(kind, 0) + 1
 
+    _quiet = False
+
     def p(self, fam, code, detail=""):
+        if self._quiet:
+            return
         if len(self.problems) < self.max_problems:
             self.problems.append(Problem(fam, code, str(detail)[:200]))
 
@@ -164,7 +168,8 @@ class Checker:
             mapping, meta = img.block_map(i, strict=False)
         except I.FormatError as e:
             self.p("F4", "mapping-malformed", "inode %d: %s" % (i.ino, e))
-            self.mapping_failed = True
+            if not self._quiet:
+                self.mapping_failed = True
             return None
         blocks = list(meta)
         for l, pb, c, un in mapping:
@@ -242,13 +247,20 @@ class Checker:
         first_ino = sb.first_ino
         gds = img.group_descs()
         self.inodes = {}
-        special = {I.BAD_INO, I.ROOT_INO, I.RESIZE_INO, I.JOURNAL_INO}
+        # every reserved inode is an allocated inode and owns what it references (e2fsck walks the
+        # blocks and the xattr block of all of them; 5 = boot loader inode, 6, 9, 10 have no defined
+        # content but keep what they hold)
+        special = set(range(1, min(first_ino, 4096))) | {I.BAD_INO, I.ROOT_INO, I.RESIZE_INO, I.JOURNAL_INO}
         for q in (sb.s_usr_quota_inum, sb.s_grp_quota_inum, sb.s_prj_quota_inum):
             if q:
                 special.add(q)
         if sb.has_compat("orphan_file") and sb.s_orphan_file_inum:
             special.add(sb.s_orphan_file_inum)
         self.special = special
+        # those whose i_file_acl nobody interprets
+        self.named_special = {I.BAD_INO, I.ROOT_INO, I.RESIZE_INO, I.JOURNAL_INO} | \
+            {q for q in (sb.s_usr_quota_inum, sb.s_grp_quota_inum, sb.s_prj_quota_inum) if q} | \
+            ({sb.s_orphan_file_inum} if sb.has_compat("orphan_file") and sb.s_orphan_file_inum else set())
         ipg = sb.s_inodes_per_group
         self.bad_blocks = set()
         self.in_bad_block = set()
@@ -291,7 +303,7 @@ class Checker:
                     continue        # other reserved inodes carry no defined content
                 elif ino != I.ROOT_INO:
                     mode = struct.unpack_from("<H", raw, 0)[0]
-                    if mode == 0 and not any(raw[40:100]):
+                    if mode == 0 and not any(raw[40:100]) and not any(raw[104:108]):
                         continue
                 if gd.inode_table + (idx * isz) // img.bs in self.bad_blocks:
                     # inode lives in a block on the bad-block list: it does not exist, but
@@ -311,6 +323,21 @@ class Checker:
             if i.compute_csum() != i.stored_csum():
                 self.p("F5", "inode-csum", "inode %d" % ino)
         fmt = i.fmt
+        has_blocks = False
+        if ino < sb.first_ino and ino not in self.named_special:
+            # reserved inodes without a defined role (5, 6, 9, 10): what they validly reference is
+            # theirs (e2fsck counts it), what they hold otherwise is nobody's business
+            self._quiet = True
+            try:
+                self._check_inode_refs(i, fmt)
+            finally:
+                self._quiet = False
+            return
+        self._check_inode_refs(i, fmt)
+
+    def _check_inode_refs(self, i, fmt):
+        img, sb = self.img, self.sb
+        ino = i.ino
         has_blocks = False
         if ino == I.RESIZE_INO:
             # its blocks are the reserved GDT blocks (fixed metadata) plus one dind block
@@ -337,8 +364,8 @@ class Checker:
             has_blocks = False
         elif fmt in (I.S_IFREG, I.S_IFDIR) or (fmt == I.S_IFLNK and not self.is_fast_symlink(i)):
             has_blocks = True
-        elif ino in self.special and ino != I.ROOT_INO:
-            has_blocks = True
+        elif ino in self.named_special and ino != I.ROOT_INO:
+            has_blocks = True       # (the other reserved inodes map blocks only with a file type, like everybody)
         if has_blocks:
             if i.flags & I.FL_EXTENTS:
                 self.check_extent_shape(i)
@@ -348,7 +375,7 @@ class Checker:
                 self.claim(blocks, "ino%d" % ino, ino)
                 i._mapping = mapping
         # xattr block (nobody interprets i_file_acl of the journal/resize/quota/orphan inodes)
-        if i.file_acl and not (ino in self.special and ino != I.ROOT_INO):
+        if i.file_acl and not (ino in self.named_special and ino != I.ROOT_INO):
             b = i.file_acl
             if b < sb.s_first_data_block or b >= img.blocks_count:
                 self.p("F1", "block-out-of-range", "inode %d xattr block %d" % (ino, b))
@@ -700,6 +727,11 @@ class Checker:
                 if u:
                     used_here += 1
                 if bm is not None:
+                    if (k >> 3) >= len(bm):
+                        # geometry fields contradict each other (clusters per group vs block size)
+                        if mism is None:
+                            mism = (c, 0)
+                        break
                     bit = bm[k >> 3] >> (k & 7) & 1
                     if bit != u and mism is None:
                         mism = (c, bit)
